@@ -1,7 +1,7 @@
 """C15 -- built-in functions and constants agree with their mathematical definitions."""
 import ast
 
-from ..index import AnalysisError, walk_own, unparse, short, clone
+from ..index import AnalysisError, walk_own, unparse, short, clone, ancestors
 from ..cfg import cfg_of
 from .. import nf, lib, tables
 from ..selftest import Mutant, Benign
@@ -975,6 +975,25 @@ def d2_factorial(ctx, idx, env):
         elif flag is None:
             _absent(r, idx, fi, 'mathfuncs.factorial [integrality]', 'no `is_integer` test inside a try found', fi.loc)
         else:
+            # `if isinstance(z, int): flag = True  else: try: flag = z.is_integer() ...` (an inlined helper with an early
+            # `return True`) is the same test as `isinstance(z, int) or z.is_integer()`: fold the enclosing branches in
+            effective = tested.value
+            child = tr
+            for a in ancestors(tr):
+                if a is fn:
+                    break
+                if isinstance(a, ast.If):
+                    def _sets_true(stmts):
+                        return len(stmts) == 1 and isinstance(stmts[0], ast.Assign) and len(stmts[0].targets) == 1 and \
+                            isinstance(stmts[0].targets[0], ast.Name) and stmts[0].targets[0].id == flag and \
+                            nf.const_value(stmts[0].value, 0) is True
+                    if any(child is s_ for s_ in a.orelse) and len(a.orelse) == 1 and _sets_true(a.body):
+                        effective = ast.BoolOp(op=ast.Or(), values=[a.test, effective])
+                    elif any(child is s_ for s_ in a.body) and len(a.body) == 1 and _sets_true(a.orelse):
+                        effective = ast.BoolOp(op=ast.Or(), values=[ast.UnaryOp(op=ast.Not(), operand=a.test), effective])
+                child = a
+            if effective is not tested.value:
+                tested = ast.copy_location(ast.Assign(targets=tested.targets, value=effective), tested)
             res = nf.classify(['isinstance(_Z, int) or _Z.is_integer()', 'isinstance(_Z, numbers.Integral) or _Z.is_integer()',
                                'isinstance(_Z, (int, np.integer)) or _Z.is_integer()'], tested.value, dict(b))
             if res == nf.MATCH:
